@@ -78,6 +78,15 @@ pub fn main(args: &[String], w: &mut dyn Write) {
     let mut r = Rng::new(seed.wrapping_add(shard * 15487469));
     let galpha = ['a', 'b', '*', '?', 'é', ' ', '.', '\\'];
     for i in 0..(count / nsh) {
+        if i % 8 == 7 {
+            // what RegexRule::make turns an arbitrary expression into before the crate sees it (unmake returns the prepared expression)
+            let e = rand_str(&mut r, &['a', 'b', '\\', '{', '}', '[', ']', '<', '>', '1', '2', ',', '(', ')', '|', '.', '*', '+', '?', '^', '-', '#', '_', ' '], 10);
+            if e.ends_with(' ') { continue; }
+            let res = match std::panic::catch_unwind(std::panic::AssertUnwindSafe(|| mk.parse(&format!("{} (regex)", e)).map(|x| x.unmake()))) {
+                Err(_) => "panic".to_string(), Ok(Err(_)) => "err".into(), Ok(Ok((_, b, _, _))) => format!("x{}", hex(&b)) };
+            writeln!(w, "M z {}|{}", hex(e.as_bytes()), res).unwrap();
+            continue;
+        }
         match i % 5 {
             0 => {  // regex
                 let re = gen_re(&mut r, 3);
